@@ -324,6 +324,8 @@ def genmod_body(t, others=None):
     mod, src, funcs = build_gen_module(t, others)
     both = len(funcs) == 2 and t.take(2) == 1
     traced = funcs if both else funcs[:1]
+    if both and t.take(2) == 1:
+        traced = traced[::-1]  # the order in which the traces arrive (e.g. a nested class's method before its outer class's)
     traces = []
     for _q, f, _owner, _raw in traced:
         names = f.__code__.co_varnames[: f.__code__.co_argcount + f.__code__.co_kwonlyargcount]
